@@ -207,9 +207,46 @@ def seeds(c):
     return dict(fails=fails)
 
 
+def fhist(c):
+    """frame workflows in THIS process: every frame of the history, then the target; returns the target's digest.  The
+    props side runs the same target with and without the history in separate interpreters."""
+    import hashlib
+    import setigen as stg
+
+    def build(f):
+        fr = stg.Frame(fchans=f["F"], tchans=f["T"], df=f["df"], dt=f["dt"], fch1=6e9, seed=f["seed"], t_start=0.0)
+        for op in f["ops"]:
+            if op == "obs_chi2":
+                fr.add_noise_from_obs(noise_type="chi2")
+            elif op == "obs_gauss":
+                fr.add_noise_from_obs(noise_type="gaussian", share_index=True)
+            elif op == "obs_gauss_indep":
+                fr.add_noise_from_obs(noise_type="gaussian", share_index=False)
+            elif op == "obs_tables":
+                fr.add_noise_from_obs(np.array([3.0, 4.0, 5.5]), np.array([1.0, 0.5, 2.0]), np.array([0.0, 1.0, 2.0]), noise_type="gaussian", share_index=True)
+            elif op == "noise_chi2":
+                fr.add_noise(x_mean=10, noise_type="chi2")
+            elif op == "noise_gauss":
+                fr.add_noise(x_mean=5, x_std=2, x_min=1, noise_type="gaussian")
+            elif op == "signal_rfi":
+                fr.add_signal(stg.simple_rfi_path(f_start=fr.get_frequency(fr.fchans // 2), drift_rate=0.0, spread=3 * fr.df, spread_type="normal", rfi_type="random_walk", seed=f["seed"] + 1),
+                              stg.constant_t_profile(level=7.0), stg.box_f_profile(width=2 * fr.df), stg.constant_bp_profile(level=1))
+            elif op == "signal_snr":
+                fr.add_constant_signal(f_start=fr.get_frequency(fr.fchans // 3), drift_rate=0.0, level=(fr.get_intensity(snr=20) if fr.noise_std else 10.0), width=2 * fr.df, f_profile_type="gaussian")   # SNR levels need noise (documented ValueError otherwise)
+            elif op == "zero":
+                fr.zero_data()
+        return fr
+    for f in c["history"]:
+        build(f)
+    t1 = build(c["target"])
+    t2 = build(c["target"])
+    dig = lambda fr: hashlib.sha256(np.ascontiguousarray(fr.data).tobytes() + repr([float(x).hex() for x in fr.get_noise_stats()]).encode()).hexdigest()
+    return dict(digest=dig(t1), again=dig(t2), stats=[float(x) for x in t1.get_noise_stats()])
+
+
 def main():
     payload = json.load(sys.stdin)
-    f = dict(scenario=scenario, frames=frames, seeds=seeds)[payload["mode"]]
+    f = dict(scenario=scenario, frames=frames, seeds=seeds, fhist=fhist)[payload["mode"]]
     json.dump([f(c) for c in payload["cases"]], open(sys.argv[1], "w"))
 
 
